@@ -44,6 +44,9 @@ type Evald struct {
 	Path   string
 	ExpMap [][]uint64
 	Merged bool
+	// inputs of the root merge (still open until Close) and their references
+	InSegs []segment.Segment
+	InExps []*ref.Content
 }
 
 func (e *Evald) Close() {
@@ -99,6 +102,7 @@ func EvalExpr(menu []spec.Batch, e enum.Expr, mode uint32) (*Evald, error) {
 		}
 	}
 	rv.Exp, rv.ExpMap = ref.FromMerge(ins, drops)
+	rv.InSegs, rv.InExps = segs, ins
 	path, maps, size, err := safeMerge(segs, bms, mode)
 	rv.cleanup = append(rv.cleanup, func() { zx.Remove(path) })
 	if err != nil {
